@@ -1094,13 +1094,14 @@ def check_C16(tier, seed):
     for b in behs:
         b["steps"] = [x for x in b["steps"] if x.get("a") != "check"]
     tot = dict(replays=0, steps=0, configs=[])
-    for r in rows:
+    for ri, r in enumerate(rows):
         big = r["pagesize"] >= 65536
         sub = behs[::6] if big else behs
         if r["pagesize"] * r["num_pages"] > 300 * 1024 * 1024:
             sub = sub[:20]
         args = ["--pagesize", r["pagesize"], "--num-pages", r["num_pages"], "--strict", r["strict"], "--populate", r["populate"]]
-        nrep, nst = kv.replay_behaviours(v, sub, ["overflow" if r["pagesize"] <= 4096 else "flat"],
+        # (every other configuration with the profile that has the empty key, the empty bucket name and the empty value)
+        nrep, nst = kv.replay_behaviours(v, sub, [("overflow" if ri % 2 == 0 else "empty") if r["pagesize"] <= 4096 else "flat"],
                                          "C16-%d-%d" % (r["pagesize"], r["num_pages"]), extra_args=args, jobs=8)
         tot["replays"] += nrep
         tot["steps"] += nst
@@ -1204,6 +1205,12 @@ def check_C15(tier, seed):
         with gzip.open(os.path.join(gold, "golden-%d-grown.db.gz" % ps), "rb") as fi, open(grown, "wb") as fo:
             shutil.copyfileobj(fi, fo)
         files.append((grown, os.path.join(gold, "golden-%d.json" % ps), False))
+        # ... and one whose committed free list spans several pages (a large bucket created and deleted again)
+        if ps in (1024, 4096):
+            bigfree = os.path.join(scratch(), "golden-%d-bigfree.db" % ps)
+            with gzip.open(os.path.join(gold, "golden-%d-bigfree.db.gz" % ps), "rb") as fi, open(bigfree, "wb") as fo:
+                shutil.copyfileobj(fi, fo)
+            files.append((bigfree, os.path.join(gold, "golden-%d.json" % ps), False))
     stats = dict(events=0, states=0, files=0)
     samples = []
     rounds = 1 if tier == "quick" else 6
@@ -1243,8 +1250,8 @@ def check_C15(tier, seed):
     cov = dict(programs=len(files), disagreements_checked=stats["files"], samples=samples,
                states=mc["states"] + stats["states"], transitions=mc["transitions"] + stats["events"],
                traces_validated_against_impl=stats["files"], evaluations=stats["events"], distinct_nontrivial=len(files),
-               rule="12 golden files (4 page sizes x {current header, legacy header, created small and grown by the 8 MiB step: "
-                    "untruncated length}) written by the pinned release are recorded "
+               rule="14 golden files (4 page sizes x {current header, legacy header, created small and grown by the 8 MiB step: "
+                    "untruncated length} + 2 with a committed free list of several pages) written by the pinned release are recorded "
                     "behaviours the current code must accept and extend: Trace_KV starts from the recorded logical content "
                     "(load), Trace_Page from the independent parse of the file (seed: structure, accounting, header choice at "
                     "open), then a seeded random history is committed on top, validated step by step incl. every page image "
